@@ -9,10 +9,10 @@ one() {
   rsync -a --exclude .git --exclude examples /repo/ "$d/"
   if ! (cd "$d" && patch -s -p1 < "$f" >/dev/null 2>&1); then echo "$f PATCH-FAILED"; rm -rf "$d"; return; fi
   if ! (cd "$d" && go build ./... >/dev/null 2>&1); then echo "$f BUILD-FAILED"; rm -rf "$d"; return; fi
-  out=$(/verif/bin/restcheck -repo "$d" -property all -no-evidence 2>&1)
+  out=$(${RC:-/verif/bin/restcheck} -repo "$d" -property all -no-evidence 2>&1)
   rules=$(echo "$out" | grep -E '^  (VIOLATED|UNDECIDED)' | awk '{print $2}' | tr -d ':' | sort -u | paste -sd' ')
   nsum=$(echo "$out" | grep -cE '^C[0-9]+: [0-9]+ obligations')
-  if [ "$nsum" -ne 17 ] || echo "$out" | grep -qE '^(ERROR|panic:|fatal error)'; then rules="CRASH($nsum/17 summaries) $rules"; fi
+  if [ "$nsum" -ne 19 ] || echo "$out" | grep -qE '^(ERROR|panic:|fatal error)'; then rules="CRASH($nsum/19 summaries) $rules"; fi
   echo "$f => ${rules:-NONE}"
   rm -rf "$d"
 }
